@@ -1041,6 +1041,11 @@ class ParseUniq:
             blocknode=blocknode,
         )
 
+    def create_syntaxhighlight(self, _name, vlist, inner, xopts):
+        # same node as <source>, built directly: wrapping the body in <source>...</source>
+        # and parsing it again would end the body at a literal "</source>" inside it
+        return self.create_source("source", vlist, inner, xopts)
+
     def create_ref(self, _name, vlist, inner, xopts):
         expander = xopts.expander
         if expander is not None and inner:
